@@ -317,7 +317,7 @@ def run_check(prop, tier, seed):
     known = load_known()
     viol = []
     for r in results:
-        if r.get("status") != "ok":
+        if r.get("status") not in ("ok", "spin"):
             harness.append({"i": r["i"], "status": r.get("status"), "detail": r.get("detail")})
         for v in r.get("violations", []):
             if v[0] == prop:
